@@ -84,6 +84,9 @@ fn contexts() -> Vec<&'static str> {
         "GOSUB 50\n20 END\n50 X = {e}\n60 RETURN",
         "GOTO 50\n20 END\n50 PRINT {e}",
         "IF X THEN END\n11 X$ = {e}",
+        // statements behind a subroutine call on the same line are executed after the RETURN
+        "GOSUB 100: X$ = {e}",
+        "IF X = X THEN GOSUB 100: PRINT {e}",
     ]
 }
 
@@ -260,26 +263,32 @@ fn check_line(ctx_line: &str, acc: &mut Acc) {
             // the error must be reported where the offending text is, also when the same line
             // number was given earlier in the file with valid text
             if data == "1" && is_straight(ctx_line) {
-                let dup = vec!["10 PRINT 1; 2; 3; 4; 5; 6; 7; 8; 9".to_string(), "20 PRINT 2".to_string(), format!("10 {}", ctx_line)];
-                match analyze(&dup) {
-                    Ok(e2) => {
-                        let kinds: Vec<&String> = errs.iter().filter(|(l, _)| *l == 3).map(|(_, k)| k).collect();
-                        let on_last: Vec<&String> = e2.iter().filter(|(l, _)| *l == 2).map(|(_, k)| k).collect();
-                        let elsewhere: Vec<&(usize, String)> = e2.iter().filter(|(l, _)| *l != 2).collect();
-                        if on_last != kinds || !elsewhere.is_empty() {
-                            acc.violating += 1;
-                            if acc.viol.len() < 30 {
-                                acc.viol.push(Violation {
-                                    signature: format!("error of a redefined line reported elsewhere: {}", ctx_line).chars().take(160).collect(),
-                                    detail: format!("file {:?}: errors {:?}; the statement alone gives {:?} and it is on file line 2", dup, e2, kinds),
-                                    case: json!({"kind":"file","text":dup.join("\n")}),
-                                });
+                let files: Vec<(Vec<String>, usize, &str)> = vec![
+                    (vec!["10 PRINT 1; 2; 3; 4; 5; 6; 7; 8; 9".to_string(), "20 PRINT 2".to_string(), format!("10 {}", ctx_line)], 2, "error of a redefined line reported elsewhere"),
+                    // blank-only, empty and unnumbered file lines in front of it (a CRLF file's empty lines are a lone CR)
+                    (vec!["   ".to_string(), "\r".to_string(), "10 PRINT 1".to_string(), String::new(), "\t".to_string(), format!("20 {}", ctx_line)], 5, "error reported on another file line when blank lines precede it"),
+                ];
+                for (dup, at, label) in files {
+                    match analyze(&dup) {
+                        Ok(e2) => {
+                            let kinds: Vec<&String> = errs.iter().filter(|(l, _)| *l == 3).map(|(_, k)| k).collect();
+                            let on_last: Vec<&String> = e2.iter().filter(|(l, _)| *l == at).map(|(_, k)| k).collect();
+                            let elsewhere: Vec<&(usize, String)> = e2.iter().filter(|(l, _)| *l != at).collect();
+                            if on_last != kinds || !elsewhere.is_empty() {
+                                acc.violating += 1;
+                                if acc.viol.len() < 30 {
+                                    acc.viol.push(Violation {
+                                        signature: format!("{}: {}", label, ctx_line).chars().take(160).collect(),
+                                        detail: format!("file {:?}: errors {:?}; the statement alone gives {:?} and it is on file line {}", dup, e2, kinds, at),
+                                        case: json!({"kind":"file","text":dup.join("\n")}),
+                                    });
+                                }
                             }
                         }
-                    }
-                    Err(p) => {
-                        acc.violating += 1;
-                        acc.viol.push(Violation { signature: format!("analyzer panic {}", short_panic(&p)), detail: p, case: json!({"kind":"file","text":dup.join("\n")}) });
+                        Err(p) => {
+                            acc.violating += 1;
+                            acc.viol.push(Violation { signature: format!("analyzer panic {}", short_panic(&p)), detail: p, case: json!({"kind":"file","text":dup.join("\n")}) });
+                        }
                     }
                 }
             }
